@@ -4,7 +4,7 @@ from .. import front, contracts, harness
 from ..interp import Incomplete, Sink, Interp, Region, Ptr
 from ..ir import IRError
 from ..poly import Poly, FV, C, P
-from ..wrapcheck import site_of, sink_site
+from ..wrapcheck import site_of, sink_site, explore_paths
 from ..specs.ext_spec import mulspec
 
 LEVEL = 'proof'
@@ -227,38 +227,62 @@ def check_inv(rep, mod, cfg, name):
         ctx = contracts.Ctx()
         summ, _ = contracts.wrapper_summaries(mod, ctx)
         try:
-            eff = harness.run_routine(mod, name, summ, alias=al, extents={'result': 24, 'a': 24})
+            ps0 = harness.describe(mod, name)
+            # every path over the residue tests the routine makes on its operand (a fast path for base-field elements, ...)
+            paths = list(explore_paths(mod, name, summ, ctx, ps0, alias=al, extents={'result': 24, 'a': 24}))
         except (Incomplete, IRError) as e:
             rep.incomplete('inv:' + tag, 'ext-inverse', site, str(e))
             continue
         except Sink as e:
             rep.refute('safety:' + tag, 'ext-safety', sink_site(e, site), str(e))
             continue
-        rn = [p for p in eff.params if p.name == 'result'][0].region.name
-        an = [p for p in eff.params if p.name == 'a'][0].region.name
-        A = [Poly.var('%s[%d]' % (an, j)) for j in range(3)]
-        cofs = []
-        ts = []
-        ok = True
-        for j in range(3):
-            v = eff.writes.get((rn, 8 * j))
-            r = strip_inv(v.nf, ctx) if isinstance(v, FV) else None
-            if r is None or r[1] is None:
-                ok = False
-                break
-            cofs.append(r[0])
-            ts.append(r[1])
-        if not ok or any(t != ts[0] for t in ts):
-            rep.refute('inv:' + tag, 'ext-inverse', site, 'result is not of the form cofactor * inv(t) with one common t')
-            continue
-        prod = [x.modp() for x in mulspec(A, cofs)]
-        if prod[0] == ts[0] and prod[1] == Poly() and prod[2] == Poly():
-            rep.ok('inv:' + tag, 'ext-inverse', site, 'a * cofactors = (t,0,0) and result = cofactors * inv(t): a*inv(a) = 1 whenever t != 0')
-            if not al:
-                rep.sample(dict(function=dem, site=site, t=str(ts[0])[:300]))
-        else:
-            rep.refute('inv:' + tag, 'ext-inverse', site, 'a * cofactors = (%s, %s, %s), expected (t,0,0) with t = %s' % (
-                str(prod[0])[:100], str(prod[1])[:100], str(prod[2])[:100], str(ts[0])[:100]))
+        for dec, eff, values, atom_subst in paths:
+            ptag = tag + ('' if not dec else ' path[%s]' % ','.join('(%s)%s0' % (v[1], '==' if v[0] else '!=') for k, v in sorted(dec.items(), key=str) if k[0] == 'res'))
+            rn = [p for p in eff.params if p.name == 'result'][0].region.name
+            an = [p for p in eff.params if p.name == 'a'][0].region.name
+            sub = (lambda x: x.subst(atom_subst).modp()) if atom_subst else (lambda x: x)
+            A = [sub(Poly.var('%s[%d]' % (an, j))) for j in range(3)]
+            cofs = []
+            ts = []
+            bad = None
+            for j in range(3):
+                v = eff.writes.get((rn, 8 * j))
+                v = FV.const(v) if isinstance(v, int) else v
+                if v is None and rn == an:
+                    v = FV(Poly.var('%s[%d]' % (an, j)), 'u64')       # in place and not written: it still holds the operand's component
+                if v is None:
+                    bad = 'result[%d] is not written on this path (it keeps whatever the output held before the call)' % j
+                    break
+                if not isinstance(v, FV):
+                    bad = 'result[%d] is %r' % (j, v)
+                    break
+                nf = sub(v.nf)
+                if not nf.d:
+                    cofs.append(Poly())
+                    ts.append(None)
+                    continue
+                r = strip_inv(nf, ctx)
+                if r is None or r[1] is None:
+                    bad = 'result[%d] = %s is not of the form cofactor * inv(t)' % (j, str(nf)[:100])
+                    break
+                cofs.append(r[0])
+                ts.append(sub(r[1]))
+            if bad is None:
+                tt = [t for t in ts if t is not None]
+                if not tt or any(t != tt[0] for t in tt):
+                    bad = 'result is not of the form cofactor * inv(t) with one common t'
+            if bad is not None:
+                rep.refute('inv:' + ptag, 'ext-inverse', site, bad)
+                continue
+            t0 = [t for t in ts if t is not None][0]
+            prod = [sub(x.modp()) for x in mulspec(A, cofs)]
+            if prod[0] == t0 and prod[1] == Poly() and prod[2] == Poly():
+                rep.ok('inv:' + ptag, 'ext-inverse', site, 'a * cofactors = (t,0,0) and result = cofactors * inv(t): a*inv(a) = 1 whenever t != 0')
+                if not al and not dec:
+                    rep.sample(dict(function=dem, site=site, t=str(t0)[:300]))
+            else:
+                rep.refute('inv:' + ptag, 'ext-inverse', site, 'a * cofactors = (%s, %s, %s), expected (t,0,0) with t = %s' % (
+                    str(prod[0])[:100], str(prod[1])[:100], str(prod[2])[:100], str(t0)[:100]))
 
 
 def explore_predicate(mod, name, summ_factory, setup):
